@@ -6768,6 +6768,8 @@ void SoPlexBase<R>::resetSettings(const bool quiet, const bool init)
                                   init);
 
 #endif
+
+   setRandomSeed(SOPLEX_DEFAULT_RANDOM_SEED);
 }
 
 /// print non-default parameter values
